@@ -63,6 +63,14 @@ class Rig:
                 t = sync_cls.get_transport_class("grpc_asyncio")(channel=self._aio_channel)
                 return cls(transport=t)
             c = self.run(mk())
+        elif kind == "arest":
+            # experimental asynchronous REST transport (library settings: rest_async_io_enabled)
+            from google.auth.aio.credentials import AnonymousCredentials as AsyncAnonymousCredentials
+            cls = getattr(pkg, svc["name"] + "AsyncClient")
+
+            async def mk_arest():
+                return cls(transport="rest_asyncio", credentials=AsyncAnonymousCredentials(), client_options={"api_endpoint": self.http.endpoint})
+            c = self.run(mk_arest())
         else:
             from google.auth.credentials import AnonymousCredentials
             cls = getattr(pkg, svc["name"] + "Client")
